@@ -1175,3 +1175,128 @@ def c14(ctx):
                     'non-trivial = distinct probes',
             'probes': len(pos), 'differences': diffs, 'traces_validated_against_impl': len(pos),
             'samples': [{'fen': pos[0]['fen'], 'history': [h if isinstance(h, str) else list(h) for h in jobs_b[0].history], 'output': strip_volatile(jobs_b[0].lines or [])}] if pos else []}
+
+
+# =====================================================================================================
+# C11 / C12: schedules (search thread held at a phase through the sync hook)
+
+def run_sched(ctx, npos, maxd, maxk, binary='verifh'):
+    rc, out, err, stats = harness(['sched', str(npos), str(maxd), str(maxk)], timeout=3000, binary=binary)
+    rows = []
+    for l in out.split('\n'):
+        l = l.strip()
+        if l.startswith('{'):
+            try:
+                rows.append(json.loads(l))
+            except ValueError:
+                pass
+    return rows, err, rc
+
+
+def sched_sig(r, kind):
+    return sig(kind, r['fen'], r['go'], r['at'], ' '.join(r['cmds']), r['hold_ms'])
+
+
+def sched_desc(r):
+    return {'fen': r['fen'], 'go': r['go'], 'search_thread_held_at': r['at'], 'commands_issued_there': r['cmds'], 'hold_ms': r['hold_ms'],
+            'output': r['lines'][-8:], 'replay': 'verifh sched (the schedule is enumerated deterministically; this row is identified by the fields above)'}
+
+
+@check('C11', ['C11.v'])
+def c11(ctx):
+    npos, maxd, maxk = (3, 3, 3) if ctx.quick else (12, 4, 8)
+    rows, err, rc = run_sched(ctx, npos, maxd, maxk)
+    cut = [r for r in rows if ('stop' in r['cmds'] or r['hold_ms'] > 0) and r['reached']]
+    req, meta = [], []
+    nontrivial = set()
+    for r in cut:
+        bms = [l.split()[1] for l in r['lines'] if l.startswith('bestmove ')]
+        if not bms:
+            ctx.v.violation('no-bestmove-after-interruption', sched_desc(r), signature=sched_sig(r, 'c11n'))
+            continue
+        bm = bms[0]
+        nontrivial.add((r['fen'], r['at'], r['hold_ms'] > 0))
+        if r['deepest'] >= 1 and r['ref_best']:
+            if bm != r['ref_best']:
+                d = sched_desc(r)
+                d.update({'bestmove': bm, 'deepest_completed_iteration': r['deepest'], 'go_depth_D_plays': r['ref_best'],
+                          'statement': 'the move played must be the first PV move of the deepest fully completed iteration'})
+                ctx.v.violation('partial-iteration-leaked-into-bestmove', d, signature=sched_sig(r, 'c11'))
+        req.append((r['fen'], [bm]))
+        meta.append(r)
+    for r, res in zip(meta, S.lines_legal(req)):
+        if res != -1:
+            ctx.v.violation('illegal-bestmove-after-interruption', sched_desc(r), signature=sched_sig(r, 'c11l'))
+    # wall-clock interruptions at arbitrary times (validation): stop after random delays, compare with go depth D
+    jobs = []
+    fens = sorted(set(r['fen'] for r in rows))
+    for i in range(12 if ctx.quick else 200):
+        jobs.append(S.Job(fens[i % len(fens)], 'go infinite', stop_after=0.002 * (1 + (i * 7) % 40)))
+    S.run_jobs(jobs, workers=4, per_job_timeout=30, fresh_process_each=True)
+    refs = []
+    for j in jobs:
+        p = uci.parse_search_output(j.lines or [])
+        ds = [d['depth'] for d in p['depth_lines']]
+        if j.died or j.timeout or len(p['bestmove']) != 1:
+            ctx.v.violation('no-single-bestmove-after-stop', {'fen': j.fen, 'stop_after_s': j.stop_after, 'lines': (j.lines or [])[-4:]}, signature=sig('c11w', j.fen, j.stop_after))
+            continue
+        if ds:
+            refs.append((j, max(ds), p['bestmove'][0]))
+    rjobs = [S.Job(j.fen, 'go depth %d' % d) for j, d, bm in refs]
+    S.run_jobs(rjobs, workers=4, per_job_timeout=120, fresh_process_each=True)
+    for (j, d, bm), rj in zip(refs, rjobs):
+        rb = uci.parse_search_output(rj.lines or [])['bestmove']
+        if rb and rb[0] != bm:
+            ctx.v.violation('partial-iteration-leaked-into-bestmove', {'fen': j.fen, 'go': 'go infinite', 'stop_after_s': j.stop_after, 'bestmove': bm,
+                            'deepest_completed_iteration': d, 'go_depth_D_plays': rb[0], 'lines': j.lines[-4:]}, signature=sig('c11w', j.fen, j.stop_after))
+    return {'evaluations': len(cut) + len(jobs), 'distinct_nontrivial': len(nontrivial),
+            'rule': 'search thread held (sync hook) after root move k of iteration d, after each iteration, at entry, before/after bestmove, for d<=%d, k<%d, on %d positions; '
+                    'there the command thread sends stop (or the thread is held beyond a movetime budget: deadline expiry at that point); bestmove must equal what `go depth D` '
+                    'plays for the deepest completed iteration D and be legal; plus stops at wall-clock delays; non-trivial = distinct (position, phase, stop|deadline)' % (maxd, maxk, npos),
+            'schedules': len(rows), 'interruptions': len(cut), 'wallclock_interruptions': len(jobs), 'traces_validated_against_impl': len(cut) + len(jobs),
+            'samples': [sched_desc(r) for r in cut[:2]]}
+
+
+@check('C12', ['C12.v'], race=True)
+def c12(ctx):
+    npos, maxd, maxk = (3, 3, 3) if ctx.quick else (10, 4, 6)
+    rows, err, rc = run_sched(ctx, npos, maxd, maxk)
+    nontrivial = set()
+    for r in rows:
+        nontrivial.add((r['at'], ' '.join(r['cmds']), r['go'].split()[1]))
+        bad = None
+        if r['blocked']:
+            bad = ('command-thread-blocked', 'commands that did not return within their deadline: %s' % r['blocked'])
+        elif not r['finished']:
+            bad = ('search-did-not-end', 'no bestmove within 6 s although stop was sent / the go was bounded (lost stop or deadlock)')
+        elif r['bestmoves'] != 1:
+            bad = ('not-exactly-one-bestmove', '%d bestmove lines for one go' % r['bestmoves'])
+        elif r['readyoks'] != r['expected_readyoks']:
+            bad = ('isready-not-answered', '%d readyok for %d isready' % (r['readyoks'], r['expected_readyoks']))
+        elif not r['after_ready_ok']:
+            bad = ('engine-unusable-afterwards', 'isready after the schedule was not answered')
+        elif not r['after_go_ok']:
+            bad = ('engine-unusable-afterwards', 'a following `go depth 1` did not produce exactly one bestmove')
+        if bad:
+            d = sched_desc(r)
+            d['observation'] = bad[1]
+            ctx.v.violation(bad[0], d, signature=sched_sig(r, 'c12'))
+            if len(ctx.v.violations) >= 5:
+                break
+    rc2, out2, err2, _ = harness(['idle'])
+    if 'blocked=0 bestmoves=1 readyoks=3' not in out2:
+        ctx.v.violation('stop-or-isready-with-no-search-misbehaves', {'script': 'stop stop isready stop `position startpos` stop isready `go depth 1` ... stop stop isready',
+                        'observed': out2.strip(), 'expected': 'blocked=0 bestmoves=1 readyoks=3', 'stderr': err2[-500:]}, signature='c12idle')
+    races = None
+    if not ctx.quick and os.path.exists(common.B + '/verifh_race'):
+        rows2, err_r, rc_r = run_sched(ctx, 2, 2, 2, binary='verifh_race')
+        races = err_r.count('WARNING: DATA RACE')
+        if races:
+            ctx.v.violation('data-race-between-command-and-search-thread', {'race_detector_report': err_r[:3000], 'schedules_run': len(rows2)}, signature='c12race')
+    ctx.assumptions.append('Go memory model / scheduler below the granularity of shared operations is not modelled (label: partial); race detector run in the thorough tier')
+    return {'evaluations': len(rows) + 1, 'distinct_nontrivial': len(nontrivial),
+            'rule': 'interleavings: command words {stop, isready, stop stop, isready stop, stop isready} x search-thread phases {entered, after root move k of iteration d, iteration '
+                    'done, before bestmove, after bestmove} (d<=%d, k<%d) x go form, then isready and another go; every command has a liveness deadline; plus commands with no search '
+                    'alive; non-trivial = distinct (phase, command word, go form)' % (maxd, maxk),
+            'schedules': len(rows), 'race_detector_reports': races, 'traces_validated_against_impl': len(rows),
+            'states': None, 'samples': [sched_desc(r) for r in rows[:2]], 'partial': ['Go memory model not modelled']}
